@@ -102,10 +102,16 @@ def run(ctx):
                     f.write(json.dumps(r) + "\n")
                 for r in gen_readstorms(rng, n // 2):
                     f.write(json.dumps(r) + "\n")
-        trace = ctx.drive(binp, ["--script", script, "--mode", mode], name=mode, timeout=2400)
+        # the race detector's reports are recorded, not judged (C38 does not state race freedom; the pinned tree
+        # has a read/write race on Volume.Version() in every run): keep the driver's exit code at 0
+        trace = ctx.drive(binp, ["--script", script, "--mode", mode], name=mode, timeout=3000,
+                          env={"GORACE": "exitcode=0"} if ctx.thorough else None)
         errp = os.path.join(ctx.out, mode + ".stderr")
-        if ctx.thorough and "DATA RACE" in open(errp, errors="replace").read():
-            ctx.notes.setdefault("race_reports", []).append(mode)
+        if ctx.thorough:
+            txt = open(errp, errors="replace").read()
+            ctx.notes.setdefault("race_reports", {})[mode] = {
+                "reports": txt.count("WARNING: DATA RACE"),
+                "involving_Volume.Version": txt.count("storage.(*Volume).Version()")}
         total_rej += ctx.judge("BlobLinTrace", trace, "trace_base.cfg", {}, nontrivial=nontrivial, mutate=mutate,
                                label=mode.replace("-", ""), dfs=True, chunk_events=6000)
         if ctx.replay:
